@@ -221,3 +221,123 @@ Section Marked.
     replace (memN bt (ls_visited s)) with true by (symmetry; apply memN_In; exact H). reflexivity.
   Qed.
 End Marked.
+
+(* ================================================================== keep_mark = false (seeded change C07-c) *)
+Lemma dia_entry_calls t : t <> 0 -> bentry_calls (dia_entry t) = [CCached t 8].
+Proof.
+  intros H. unfold dia_entry, bentry_calls, entry_calls, soft. cbn [se_cache se_ok se_bt se_heap se_addr se_name].
+  change (1 =? 2) with false. change (1 =? 1) with true. cbn [negb andb].
+  replace (t =? 0) with false by (symmetry; apply N.eqb_neq; exact H). reflexivity.
+Qed.
+
+Lemma exec_cached_unfold g km mL f loading bt h s :
+  exec g km false mL (S f) loading (CCached bt h) s =
+  lift_done (s_built 1) (children g km (exec g km false mL f loading) bt h s).
+Proof. reflexivity. Qed.
+
+Lemma exec_children_unfold g km ca mL f loading bt h s :
+  exec g km ca mL (S f) loading (CChildren bt h) s = children g km (exec g km ca mL f loading) bt h s.
+Proof. reflexivity. Qed.
+
+Section Unmarked.
+  Variable n : N.
+  Variable maxLoads : N.
+  Notation gr := (dia_graph n).
+
+  Lemma filter_below b v : (forall x, In x v -> x < b) -> filter (fun x => negb (x =? b)) v = v.
+  Proof.
+    induction v as [|x v IH]; intros H; [reflexivity|]. cbn [filter].
+    assert (Hx : x < b) by (apply H; left; reflexivity).
+    replace (x =? b) with false by (symmetry; apply N.eqb_neq; lia). cbn [negb]. f_equal. apply IH. intros y Hy. apply H. right. exact Hy.
+  Qed.
+
+  Lemma memN_below b v : (forall x, In x v -> x < b) -> memN b v = false.
+  Proof.
+    intros H. destruct (memN b v) eqn:E; [|reflexivity]. apply memN_In in E. apply H in E. lia.
+  Qed.
+
+  (* loadChildren of the group at level b with k levels below it: every level is loaded once per PATH *)
+  Lemma dia_children k : forall f b loading h s,
+    N.of_nat k + b = n + 1 -> 1 <= b -> (k <= f)%nat -> (forall x, In x (ls_visited s) -> x < b) ->
+    children gr false (exec gr false false maxLoads f loading) b h s =
+    LDone (LS (ls_visited s) (ls_count s) (ls_built s + dia_built k) (ls_steps s + dia_steps k)).
+  Proof.
+    induction k as [|k IH]; intros f b loading h s Hb H1 Hf Hv; unfold children; cbv zeta; cbn [ls_visited s_step].
+    - rewrite (memN_below b _ Hv). cbn [g_bt dia_graph].
+      replace (b =? 0) with false by (symmetry; apply N.eqb_neq; lia).
+      replace (b <=? n) with false by (symmetry; apply N.leb_gt; lia).
+      replace (b =? n + 1) with true by (symmetry; apply N.eqb_eq; lia).
+      cbn [flat_map each lift_all s_unmark s_mark s_step ls_visited ls_count ls_built ls_steps filter].
+      unfold s_unmark, s_mark, s_step; cbn [ls_visited ls_count ls_built ls_steps filter].
+      rewrite N.eqb_refl. cbn [negb]. rewrite (filter_below b _ Hv). cbn [dia_built dia_steps]. f_equal. f_equal; lia.
+    - rewrite (memN_below b _ Hv). cbn [g_bt dia_graph].
+      replace (b =? 0) with false by (symmetry; apply N.eqb_neq; lia).
+      replace (b <=? n) with true by (symmetry; apply N.leb_le; lia).
+      destruct f as [|f]; [lia|].
+      cbn [flat_map]. rewrite !dia_entry_calls by lia. cbn [app each]. rewrite exec_cached_unfold.
+      assert (Hv1 : forall s1, ls_visited s1 = b :: ls_visited s -> forall x, In x (ls_visited s1) -> x < b + 1).
+      { intros s1 E x Hx. rewrite E in Hx. destruct Hx as [<-|Hx]; [lia|]. apply Hv in Hx. lia. }
+      rewrite (IH f (b + 1) loading 8 (s_mark b (s_step s))); [|lia|lia|lia|apply Hv1; reflexivity].
+      cbn [lift_done]. rewrite exec_cached_unfold.
+      rewrite (IH f (b + 1) loading 8); [|lia|lia|lia|apply Hv1; reflexivity].
+      cbn [lift_done lift_all]. unfold s_unmark, s_built, s_mark, s_step; cbn [ls_visited ls_count ls_built ls_steps filter].
+      rewrite N.eqb_refl. cbn [negb]. rewrite (filter_below b _ Hv). cbn [dia_built dia_steps]. f_equal. f_equal; lia.
+  Qed.
+End Unmarked.
+
+Lemma dia_built_pow k : dia_built k + 2 = 2 ^ (N.of_nat k + 1).
+Proof.
+  induction k as [|k IH]; [reflexivity|]. cbn [dia_built]. rewrite Nat2N.inj_succ.
+  replace (N.succ (N.of_nat k) + 1) with (N.succ (N.of_nat k + 1)) by lia. rewrite N.pow_succ_r'. lia.
+Qed.
+
+(* Open on the family: 2^(n+1) - 1 objects from n+1 B-trees and 2n entries, loadCount stays 0 (maxLoads never bites) *)
+Lemma dia_open_unmarked (n : nat) maxLoads :
+  open (dia_graph (N.of_nat n)) false false maxLoads (S n) (OStab 1 8) =
+  LDone (LS [] 0 (dia_built n + 1) (dia_steps n)).
+Proof.
+  unfold open. cbn [node_calls each]. rewrite exec_children_unfold.
+  rewrite (dia_children (N.of_nat n) maxLoads n); [|lia|lia|lia|intros x []].
+  cbn [lift_done]. unfold s_built, s0; cbn [ls_visited ls_count ls_built ls_steps]. f_equal.
+Qed.
+
+Lemma dia_open_exponential (n : nat) maxLoads :
+  exists s, open (dia_graph (N.of_nat n)) false false maxLoads (S n) (OStab 1 8) = LDone s /\
+            2 ^ N.of_nat n <= ls_built s /\ ls_count s = 0.
+Proof.
+  eexists. split; [apply dia_open_unmarked|]. cbn [ls_built ls_count]. split; [|reflexivity].
+  pose proof (dia_built_pow n) as H. replace (N.of_nat n + 1) with (N.succ (N.of_nat n)) in H by lia.
+  rewrite N.pow_succ_r' in H. assert (0 < 2 ^ N.of_nat n) by (apply N.neq_0_lt_0, N.pow_nonzero; lia). lia.
+Qed.
+
+(* no bound k * size + c on the objects built, size = number of B-trees + number of entries of the graph = 3n + 1 *)
+Lemma pow2_gt_lin m : N.of_nat m + 1 <= 2 ^ N.of_nat m.
+Proof.
+  induction m as [|m IH]; [cbn; lia|]. rewrite Nat2N.inj_succ, N.pow_succ_r'. lia.
+Qed.
+
+Lemma dia_no_linear_bound (k c maxLoads : N) :
+  exists n s, open (dia_graph (N.of_nat n)) false false maxLoads (S n) (OStab 1 8) = LDone s /\
+              k * (3 * N.of_nat n + 1) + c < ls_built s.
+Proof.
+  set (M := 6 * k + c + 2). set (m := N.to_nat M).
+  exists (2 * m)%nat. destruct (dia_open_exponential (2 * m) maxLoads) as [s [Hs [Hb _]]].
+  exists s. split; [exact Hs|].
+  pose proof (pow2_gt_lin m) as Hm.
+  assert (E : 2 ^ N.of_nat (2 * m) = 2 ^ N.of_nat m * 2 ^ N.of_nat m).
+  { rewrite <- N.pow_add_r. f_equal. lia. }
+  rewrite E in Hb. assert (Hm' : N.of_nat m = M) by (unfold m; lia).
+  assert (H1 : (M + 1) * (M + 1) <= 2 ^ N.of_nat m * 2 ^ N.of_nat m) by (rewrite <- Hm'; apply N.mul_le_mono; exact Hm).
+  replace (N.of_nat (2 * m)) with (2 * M) by lia.
+  assert (H2 : (M + 1) * (M + 1) = 6 * (k * M) + c * M + 4 * M + 1) by (unfold M; ring).
+  assert (H3 : c <= c * M) by (unfold M; nia).
+  assert (H4 : k * (3 * (2 * M) + 1) + c = 6 * (k * M) + k + c) by ring.
+  assert (H5 : k <= 4 * M) by (unfold M; lia).
+  lia.
+Qed.
+
+(* with the mark kept, the same family costs one load per group: 2n + 1 objects *)
+Example dia_marked_10 : lres_val (open (dia_graph 10) true false 100 100 (OStab 1 8)) = VL [VN 0; VN 21; VN 0; VN 11].
+Proof. vm_compute. reflexivity. Qed.
+Example dia_unmarked_10 : lres_val (open (dia_graph 10) false false 100 100 (OStab 1 8)) = VL [VN 0; VN 2047; VN 0; VN 0].
+Proof. vm_compute. reflexivity. Qed.
